@@ -110,7 +110,30 @@ def gen_case(rng, tier):
         temp, eps = rng.choice(["1/2", "2"]), rng.choice(["0", "0", "1/20"])
     episodes = rng.choice([1, 1, 2, 3, 5, 8, 12, 20])
     family = "plain"
-    if rng.random() < .2:
+    ties = rng.random() < .18
+    if ties:
+        # tie family: several actions share a NON-ZERO maximal Q-value at non-absorbing next states (optimistic /
+        # pessimistic constant or per-state-constant initial_q on >= 2 actions everywhere, multi-step episodes),
+        # greedy or nearly greedy behaviour at temperature 0.  Tie handling enters expected SARSA's target
+        # (distribution over the tied maximisers must stay normalised), double Q's argmax pick, the behaviour
+        # sampler and the returned policy; ties at 0 (default initial_q, absorbing states) hide such errors.
+        family = "ties"
+        for _ in range(50):
+            m = gen_mdp.gen_mdp(rng, nmax=5 if tier == "quick" else 6, amax=3, gamma=rng.choice(GAMMAS), proper=True,
+                                min_states=3, uniform_actions=True)
+            if m["nA"] >= 2:
+                break
+        n, nA = m["n"], m["nA"]
+        learner = rng.choice(["esarsa", "esarsa", "esarsa", "dq", "ql", "sarsa"])
+        nz = [x for x in range(-12, 13) if x != 0]
+        if rng.random() < .5:
+            iq = {"kind": "const", "value": str(F(rng.choice(nz), 4))}
+        else:
+            iq = {"kind": "table", "table": [[str(F(v, 4))] * nA for v in (rng.choice(nz) for _ in range(n))]}
+        temp, eps = "0", rng.choice(["0", "1/20", "1/20"])
+        alpha = rng.choice(["1/8", "1/2", "1"])
+        episodes = rng.choice([3, 5, 8, 12])
+    if not ties and rng.random() < .2:
         # reward-scale family: Q-values around 2^20 that differ by multiples of 2^-12 (relative gap < 1e-9):
         # the greedy policy must separate them exactly.  Step size 1 => Q = reward on terminal transitions.
         family = "scale"
@@ -384,6 +407,34 @@ def oracle(case, res):
     return t, None, None
 
 
+def tied_nonzero_targets(case, res):
+    """number of expected-SARSA (temperature 0) steps whose next-state row has >= 2 tied maximal NON-ZERO values
+    while eps < 1 and step size > 0 (input-class counter: there the normalisation over tied maximisers matters)"""
+    m = case["mdp"]
+    if case["learner"] != "esarsa" or F(case["temp"]) != 0:
+        return 0
+    al, g, ep = F(case["alpha"]), F(m["gamma"]), F(case["eps"])
+    if ep >= 1 or al <= 0:
+        return 0
+    q0, t, cnt = q0_table(case), {}, 0
+
+    def row(s):
+        if s not in t:
+            t[s] = {a: (F(0) if m["absorbing"][s] else q0[s][a]) for a in m["actions"][s]}
+        return t[s]
+    for e in res["episodes"]:
+        for st in e["steps"]:
+            if st["s"] >= m["n"] or st["ns"] >= m["n"] or st["a"] not in row(st["s"]):
+                return cnt
+            rn = row(st["ns"])
+            mx = max(rn.values())
+            k = sum(1 for v in rn.values() if v == mx)
+            cnt += int(k >= 2 and mx != 0)
+            tgt = sum(v * (ep / len(rn) + ((1 - ep) / k if v == mx else 0)) for v in rn.values())
+            t[st["s"]][st["a"]] += al * (vlib.frac(st["r"]) + g * tgt - t[st["s"]][st["a"]])
+    return cnt
+
+
 def interval_bounds(case):
     m = case["mdp"]
     g = F(m["gamma"])
@@ -592,6 +643,9 @@ def run(ctx):
         hit("sarsa_falsy_next_action", kind == "sarsa" and any(st.get("na") == falsy_id(lab, "a") for st in allsteps))
         hit("policy_state_absent_from_table", any(s not in impl_rows for s in range(m["n"])))
         hit("initial_q:" + case["initial_q"]["kind"])
+        hit("family_ties:" + kind, case.get("family") == "ties" and allsteps)
+        if nsteps <= MAX_STEPS:
+            hit("esarsa_temp0_tied_nonzero_max_at_next_state", tied_nonzero_targets(case, res) > 0)
         hit("scale_family_with_softmax_temperature(q/temp>709)", case.get("family") == "scale" and tp_ != 0 and allsteps)
         hit("falsy_action_taken:" + kind, any(st["a"] == falsy_id(lab, "a") for st in allsteps))
         hit("falsy_state_visited:" + kind, any(falsy_id(lab, "s") in (st["s"], st["ns"]) for st in allsteps))
@@ -708,6 +762,8 @@ def run(ctx):
                 "30%% object-reuse sequences (ONE learner object trained on A, B, A with the same labels and independently drawn "
 "absorbing sets / action sets / rewards; each stage is one evaluation against its own MDP; the MDP object of A is reused, "
                 "20%% with its cached matrix views touched first; every run is repeated by a twin learner with msdm's default listener); "
+"18%% tie family (>= 2 actions everywhere, non-zero constant / per-state-constant initial_q, temperature 0, eps in {0,1/20}: "
+                "tied NON-ZERO maximal Q-values at non-absorbing next states; expected SARSA weighted 3x); "
                 "10%% boundary family (gamma = 1-2^-20, step size / epsilon in {0, 2^-20, 2^-30, 1-2^-20, 1}, a transition row (1-k*2^-20, 2^-20, ..)); "
                 "state and action labels int / str / tuple / mixed incl. falsy 0, '', (), False; per-state action order sorted/reversed/shuffled; "
                 "MDP as QuickTabularMDP / QuickMDP / hand-written TabularMDP subclass (list actions, Deterministic/Uniform distributions) / initial_state= form; "
